@@ -86,10 +86,12 @@ where
         }
 
         let hundred = T::from(100.0).expect("can convert");
-        if self.avg_loss == T::zero() {
+        // The running means are sums of non-negative terms; after values have been added and
+        // subtracted they can carry a tiny negative rounding residue, which must not reach the ratio.
+        if self.avg_loss <= T::zero() {
             self.out = Some(hundred);
         } else {
-            let rs = self.avg_gain / self.avg_loss;
+            let rs = self.avg_gain.max(T::zero()) / self.avg_loss;
             let rsi = hundred - hundred / (T::one() + rs);
             debug_assert!(rsi.is_finite(), "value must be finite");
             self.out = Some(rsi);
